@@ -856,6 +856,10 @@ func c13Run(t *testing.T, ops []c13Op, emit bool) *c13Result {
 	type jump struct{ T, S uint64 }
 	var jumps []jump                    // a page ended with a revocation row whose token is printed without its trigger
 	skippedRemoval := map[uint64]int{} // document -> request at which a back-fill dropped its removal / tombstone entry
+	roleCreated := map[int]int{}       // role -> operation that created (or re-created) it
+	cutOff := map[uint64]jump{}        // document -> the page end (revocation row printed without its trigger) that cut its row off
+	var heldAtCaughtUp map[int]bool    // the user's channels at the last request that caught up
+	explained := map[uint64]string{}   // document -> root cause already established for a mismatch that persists
 	sawRevoked, sawBackfill := false, false
 	for i, op := range ops {
 		if op.Kind != "pull" {
@@ -879,6 +883,11 @@ func c13Run(t *testing.T, ops []c13Op, emit bool) *c13Result {
 				tr.apply(op, "")
 				e.db.WaitForPendingChanges(t)
 				continue
+			}
+			if op.Kind == "rchans" {
+				if ro := tr.roles[op.Who]; ro == nil || !ro.exists || ro.deleted {
+					roleCreated[op.Who] = i
+				}
 			}
 			var sdBefore *SyncData
 			var invBefore []uint64
@@ -1095,6 +1104,16 @@ func c13Run(t *testing.T, ops []c13Op, emit bool) *c13Result {
 		if op.Limit > 0 && len(rows) == op.Limit {
 			if last := rows[len(rows)-1]; last.T != 0 && last.S >= last.T {
 				jumps = append(jumps, jump{last.T, last.S})
+				// everything the un-limited response would still have delivered is at risk: the resume token "S" has lost
+				// the trigger, rows ordered after T:S but numbered at or below S are skipped, and the rest of a
+				// revocation at or below S is abandoned (its end sequence is no longer above the position)
+				if full, ferr := e.request(usr, since, 0); ferr == nil && len(full) > len(rows) {
+					for _, fr := range full[len(rows):] {
+						if !fr.Princ {
+							cutOff[fr.Doc] = jump{last.T, last.S}
+						}
+					}
+				}
 			}
 		}
 		before := client.copyOf()
@@ -1130,6 +1149,7 @@ func c13Run(t *testing.T, ops []c13Op, emit bool) *c13Result {
 			client.apply(r)
 			if !r.Princ {
 				delete(skippedRemoval, r.Doc)
+				delete(cutOff, r.Doc)
 			}
 		}
 		if emit {
@@ -1178,9 +1198,54 @@ func c13Run(t *testing.T, ops []c13Op, emit bool) *c13Result {
 						}
 					}
 				}
+				if j, cut := cutOff[uint64(d)]; cut && cause == "" {
+					cause = fmt.Sprintf(" [the row of d%d was cut off by a page that ended with a revocation row %d:%d, whose token is printed as %d: the client resumed past it]", d, j.T, j.S, j.S)
+				}
 				sigSuffix := ""
 				if cause != "" {
 					sigSuffix = "/revocation-token-skips-rows"
+				}
+				if !ok && cause == "" {
+					// a role created (or re-created) after documents granted it channels: the grants keep the sequences
+					// of the granting documents, at or below the client's position, so nothing is back-filled
+					for _, sd := range snap.Docs {
+						if sd.ID != uint64(d) {
+							continue
+						}
+						for _, q := range inhP {
+							inDoc := false
+							for _, c := range sd.Active {
+								if c == q.A {
+									inDoc = true
+								}
+							}
+							if !inDoc || (heldAtCaughtUp != nil && heldAtCaughtUp[int(q.A)-1]) {
+								continue
+							}
+							for ro, at := range roleCreated {
+								for _, rs := range snap.Roles {
+									if int(rs.ID) != ro || rs.Deleted {
+										continue
+									}
+									for _, rc := range rs.Chans {
+										if rc.A == q.A && sigSuffix == "" {
+											sigSuffix = "/role-created-after-grant"
+											cause = fmt.Sprintf(" [channel %s reaches the user through role r%d, (re-)created at op %d; the grant is stamped %d (sequence of the granting document / role assignment), not after the client's position, so the channel is not back-filled]", c13ChanNames[q.A-1], ro, at, q.B)
+										}
+									}
+								}
+							}
+						}
+					}
+				}
+				if _, held := client[uint64(d)]; !held || client[uint64(d)] != e.revID(rev) {
+					if sigSuffix == "" {
+						sigSuffix = explained[uint64(d)]
+					} else {
+						explained[uint64(d)] = sigSuffix
+					}
+				} else {
+					delete(explained, uint64(d))
 				}
 				if !ok {
 					fail(i, "client_matches_visible", "visible-doc-missing"+sigSuffix, fmt.Sprintf("op %d: document d%d (channels %v) is visible to the user (channels %v) but the client does not hold it; client %v%s", i, d, tr.docs[d].chans, c13SortedKeys(held), pr.Client, cause))
@@ -1222,6 +1287,10 @@ func c13Run(t *testing.T, ops []c13Op, emit bool) *c13Result {
 							}
 						}
 					}
+					if j, cut := cutOff[d]; cut {
+						why = "/revocation-token-skips-rows"
+						cause = fmt.Sprintf(" [the row of d%d was cut off by a page that ended with a revocation row %d:%d, whose token is printed as %d: the client resumed past it]", d, j.T, j.S, j.S)
+					}
 					for _, sd := range snap.Docs {
 						if sd.ID == d {
 							for _, j := range jumps {
@@ -1232,7 +1301,19 @@ func c13Run(t *testing.T, ops []c13Op, emit bool) *c13Result {
 							}
 						}
 					}
+					if why == "" {
+						why = explained[d]
+					} else {
+						explained[d] = why
+					}
 					fail(i, "client_matches_visible", "stale-doc"+why, fmt.Sprintf("op %d: client still holds d%d which the user cannot see (document channels %v live=%v, user channels %v): never announced as removed / revoked%s", i, d, td.chans, td.live, c13SortedKeys(held), cause))
+				}
+			}
+			for d := range explained {
+				rev, vok := vis[int(d)]
+				got, cok := client[d]
+				if vok == cok && (!vok || got == e.revID(rev)) {
+					delete(explained, d) // the mismatch is gone
 				}
 			}
 			// admin view of the implementation's own state
@@ -1257,6 +1338,9 @@ func c13Run(t *testing.T, ops []c13Op, emit bool) *c13Result {
 			}
 		}
 		prevHeld = held
+		if caught {
+			heldAtCaughtUp = held
+		}
 	}
 	res.nontri = sawRevoked || sawBackfill
 	// histories with admin grants only are also replayed on the whole-system model (Sys.v): operations in, snapshot
@@ -1552,6 +1636,9 @@ func c13Corpus() map[string][]c13Op {
 		"revoke_then_paged_backfill":  {uch(1), P(1, 1), P(2, 2), P(3, 2), pull(0), uch(), uch(2), pull(1), pull(1), pull(1), pull(1), pull(0)},
 		"revoke_grant_same_seq_paged": {uch(1), P(1, 1), P(2, 1), P(3, 2), P(4, 2), pull(0), uch(2), pull(1), pull(1), pull(1), pull(1), pull(1), pull(0)},
 		"role_revoke_then_paged_backfill": {rch(1, 1), uro(1), P(1, 1), P(2, 2), P(3, 2), P(4, 2), pull(0), uro(), rch(2, 2), uro(2), pull(2), pull(1), pull(1), pull(0)},
+		// a role (re-)created after a document granted it a channel
+		"role_created_after_doc_grant":   {{Kind: "put", Doc: 3, Acc: []c13Grant{{Role: true, To: 1, V: []int{1}}}}, uro(1), uch(2), P(1, 1), P(2, 2), pull(0), rch(1), pull(0)},
+		"role_recreated_after_doc_grant": {rch(1), uro(1), {Kind: "put", Doc: 3, Acc: []c13Grant{{Role: true, To: 1, V: []int{1}}}}, P(1, 1), pull(0), {Kind: "delrole", Who: 1}, pull(0), rch(1), pull(0)},
 		// the histories of C13_Refuted.v
 		"revocation_token_jump": {uch(1, 4), P(1, 4), pull(0), uch(1), P(2, 1), P(1, 4), pull(1), pull(0)},
 		// a held role is deleted after a document of its channel was updated past the client's position
@@ -1890,6 +1977,20 @@ func TestVerifC13(t *testing.T) {
 		}
 	}
 
+	if js := os.Getenv("C13_REPLAY_OPS"); js != "" {
+		var ops []c13Op
+		if err := json.Unmarshal([]byte(js), &ops); err != nil {
+			t.Fatalf("C13_REPLAY_OPS: %v", err)
+		}
+		res := c13Run(t, ops, false)
+		for _, f := range res.fails {
+			fmt.Printf("C13REPLAY fail %s %s: %s\n", f.monitor, f.sig, f.detail)
+		}
+		for _, p := range res.pulls {
+			fmt.Printf("C13REPLAY pull@%d limit=%d -> since %s caught=%v rows=%+v client=%v visible=%v\n", p.At, p.Limit, p.Since, p.CaughtUp, p.Rows, p.Client, p.Visible)
+		}
+		return
+	}
 	// (i) corpus: one scripted scenario per clause
 	corpus := c13Corpus()
 	names := make([]string, 0, len(corpus))
@@ -1920,7 +2021,7 @@ func TestVerifC13(t *testing.T) {
 		maxLen = 2
 	}
 	if os.Getenv("VERIF_BUDGET") != "" {
-		maxLen = 2 // the failing-input search
+		maxLen = 1 // the failing-input search concentrates on the random streams
 	}
 	if v := os.Getenv("C13_EXLEN"); v != "" {
 		maxLen, _ = strconv.Atoi(v)
@@ -1954,6 +2055,9 @@ func TestVerifC13(t *testing.T) {
 
 	// (iii) seeded random histories
 	nRand := vBudget(30, 400)
+	if os.Getenv("VERIF_BUDGET") != "" {
+		nRand = vBudget(30, 120) // search rounds: other seeds, a few hundred histories each
+	}
 	if v := os.Getenv("C13_NRAND"); v != "" {
 		nRand, _ = strconv.Atoi(v)
 	}
